@@ -129,13 +129,13 @@ func settle(f *fakes.TrackerFixture) {
 	}
 }
 
-const rule = "state machine over 3 data CIDs and 1 meta CID on one real stateless tracker (queue size 1-4, 1-3 pin workers) talking to a gated model IPFS daemon: track (local / everywhere / remote / meta x recursive / direct, the pinset updated first), untrack, recover, recoverAll, release of the k-th parked IPFS call with outcome ok or error, releaseAll; the schedule is part of the generated value; at the end everything is released with a healthy daemon, the quiescent state is judged, then a recover round runs and the state is judged strictly; non-trivial = an instruction of the opposite type arrives while a call for the same CID is parked, or an injected IPFS error, or a full queue; distinct by action script"
+const rule = "state machine over 3 data CIDs and 1 meta CID on one real stateless tracker (queue size 1-4, 1-3 pin workers) talking to a gated model IPFS daemon: track (local / everywhere / remote / meta x recursive / direct, the pinset updated first), untrack, recover, recoverAll, release of the k-th parked IPFS call with outcome ok or error, releaseAll (ok or all failing), the daemon losing a pin behind the tracker's back; the schedule is part of the generated value; at the end everything is released with a healthy daemon, the quiescent state is judged, then a recover round runs (RecoverAll only, or Recover of each CID only) and the state is judged strictly; non-trivial = an instruction of the opposite type arrives while a call for the same CID is parked, or an injected IPFS error, or a full queue; distinct by action script"
 
 func TestConverge(t *testing.T) {
 	leg := ev.L("converge", rule)
 	ctx := context.Background()
 	rapid.Check(t, func(t *rapid.T) {
-		queue := rapid.IntRange(1, 4).Draw(t, "queue")
+		queue := rapid.SampledFrom([]int{1, 1, 2, 3, 4, 4}).Draw(t, "queue")
 		workers := rapid.IntRange(1, 3).Draw(t, "workers")
 		f := fakes.NewTracker(self, queue, workers)
 		defer f.Close()
@@ -296,6 +296,37 @@ func TestConverge(t *testing.T) {
 				script = append(script, fmt.Sprintf("releaseAll(%d)", n))
 				settle(f)
 			},
+			"releaseAllFail": func(t *rapid.T) {
+				// the daemon fails everything it has in hand (several failed
+				// operations at once)
+				ps := f.D.ParkedCalls()
+				if len(ps) < 2 {
+					t.Skip("fewer than two calls parked")
+				}
+				for _, pk := range ps {
+					if pk.Kind == "unpin" {
+						unpinFailAfter[pk.Cid.String()] = seq
+					}
+				}
+				n := f.D.ReleaseAll("fail", false)
+				script = append(script, fmt.Sprintf("releaseAllFail(%d)", n))
+				classes["nontrivial"] = true
+				classes["ipfs-error"] = true
+				classes["several-failed-at-once"] = true
+				settle(f)
+			},
+			"daemonLoses": func(t *rapid.T) {
+				// the daemon loses a pin behind the tracker's back (manual
+				// 'pin rm', repository loss): no operation knows about it
+				c := data[rapid.IntRange(0, len(data)-1).Draw(t, "cid")]
+				if f.D.Get(c) == api.IPFSPinStatusUnpinned {
+					t.Skip("not held")
+				}
+				f.D.Set(c, api.IPFSPinStatusUnpinned)
+				script = append(script, fmt.Sprintf("daemonLoses(%s)", cn(c)))
+				classes["lost-behind-the-back"] = true
+				settle(f)
+			},
 		})
 
 		judge := func(phase string, strict bool) {
@@ -347,14 +378,20 @@ func TestConverge(t *testing.T) {
 			fail("the tracker did not become quiescent within 20 s with a healthy daemon (parked=%d pending=%d)", len(f.D.ParkedCalls()), len(f.T.StatusAll(ctx, pending)))
 		}
 		judge("at quiescence", false)
-		script = append(script, "| recover round")
-		if _, err := f.T.RecoverAll(ctx); err != nil {
-			fail("RecoverAll with a healthy daemon: %v", err)
-		}
-		for _, c := range data {
-			// per-CID recover as well: it is the documented way to retry one item
-			if _, err := f.T.Recover(ctx, c); err != nil && err != stateless.ErrFullQueue {
-				fail("Recover: %v", err)
+		// the recover round is either the listing-driven RecoverAll (what the
+		// peer runs at start and periodically) or a per-CID Recover of every
+		// item (what an operator does); each must be sufficient on its own
+		roundForm := rapid.SampledFrom([]string{"all", "all", "each"}).Draw(t, "recoverRound")
+		script = append(script, "| recover round ("+roundForm+")")
+		if roundForm == "all" {
+			if _, err := f.T.RecoverAll(ctx); err != nil {
+				fail("RecoverAll with a healthy daemon: %v", err)
+			}
+		} else {
+			for _, c := range data {
+				if _, err := f.T.Recover(ctx, c); err != nil && err != stateless.ErrFullQueue {
+					fail("Recover: %v", err)
+				}
 			}
 		}
 		if !quiesce(f, &running, true) {
@@ -362,8 +399,21 @@ func TestConverge(t *testing.T) {
 		}
 		// the queue may have been too small to take every retry at once: retry
 		// while progress is possible
-		for i := 0; i < 8; i++ {
-			f.T.RecoverAll(ctx)
+		// (with a queue of 4 slots every retry of the 3 data CIDs fits at once:
+		// one round must do)
+		extra := 8
+		if queue >= 4 {
+			extra = 0
+			classes["single-recover-round"] = true
+		}
+		for i := 0; i < extra; i++ {
+			if roundForm == "all" {
+				f.T.RecoverAll(ctx)
+			} else {
+				for _, c := range data {
+					f.T.Recover(ctx, c)
+				}
+			}
 			quiesce(f, &running, true)
 		}
 		judge("after the recover round", true)
